@@ -13,3 +13,4 @@ import Librfn.Props.C14
 import Librfn.Props.C10
 import Librfn.Props.C04
 import Librfn.Props.C11
+import Librfn.Props.C08
